@@ -49,6 +49,31 @@ pub fn same_as_vec_z8() {
     core::mem::forget((ra, rb, rc));
 }
 
+/// elements whose native alignment (1) differs from their alignment unit (8):
+/// the gap after the length word is governed by the unit, for all three
+// @h same_as_vec_zp props=C16,C07 tier=quick kind=bounded bound="len<=1" vars="items:Vec<ZP> (repr(packed): align_of 1, unit 8) written at stream offset 1; payload level" fns="impls/slice.rs,impls/iter.rs:SerializeHelper<Zero>,ser/helpers.rs:serialize_slice_zero"
+#[kani::proof]
+#[kani::unwind(11)]
+pub fn same_as_vec_zp() {
+    let v = <Vec<ZP>>::sym(1);
+    let mut a = ArrSink::<48>::new();
+    let (ra, _) = ser_at(&v, 1, &mut a);
+    let mut b = ArrSink::<48>::new();
+    let s: &[ZP] = v.as_slice();
+    let (rb, _) = ser_at(&s, 1, &mut b);
+    let mut d = ArrSink::<48>::new();
+    let (rd, _) = ser_at(&SerIter::from(v.iter()), 1, &mut d);
+    assert!(ra.is_ok() && rb.is_ok() && rd.is_ok(), "[C16/ok] all three serializations succeed");
+    assert!(same_sinks(&a, &b), "[C16/slice.bytes] a slice reference serializes byte-for-byte like the vector (packed elements)");
+    assert!(same_sinks(&a, &d), "[C16/iter.bytes] an exact-size iterator serializes byte-for-byte like the vector (packed elements)");
+    // and all of them are the reference encoding: 8 length bytes, 7 zero bytes, the images
+    let o = ref_at::<_, 48>(&v, 1);
+    assert!(same_bytes(a.bytes(), o.bytes()), "[C07/bytes] the gap in front of a zero-copy block is governed by the alignment unit of the element");
+    core::mem::forget((ra, rb, rd));
+    kani::cover!(v.len() == 1, "[cover] one item reached");
+    kani::cover!(v.len() == 0, "[cover] empty reached");
+}
+
 /// deep elements (slices only: SerIter requires zero-copy items)
 // @h same_as_vec_deep props=C16 tier=quick kind=bounded bound="len<=2" vars="items:Vec<Option<u8>>; payload level" fns="impls/slice.rs,ser/helpers.rs:serialize_slice_deep"
 #[kani::proof]
